@@ -32,10 +32,12 @@ CONSTANTS Actor,        \* everybody who may author operations or be a target (s
 NoActor == "-"
 
 VARIABLES ops,         \* sequence of published operations; the index is the operation id
+          anc,         \* anc[o]: the strict predecessors of o in the graph (determined by ops; kept
+                       \* as a variable only so that TLC does not recompute the closure)
           delivered,   \* delivered[r]: ids of the operations replica r accepted into its graph
           rejected,    \* rejected[r]: ids of the operations replica r refused
           st           \* st[r]: the replica's `states` map (operation id -> group state)
-vars == <<ops, delivered, rejected, st>>
+vars == <<ops, anc, delivered, rejected, st>>
 
 (* An operation: [author, deps, kind, member, acc, init, ok]; `init` are   *)
 (* the initial members of a create (member -> access), empty otherwise.   *)
@@ -54,8 +56,8 @@ OkIds == {o \in Ids : ops[o].ok}
 ---------------------------------------------------------------------------
 (* The operation graph (mod.rs:543-560 add_operation; edges dep -> op)     *)
 
-RECURSIVE Anc(_)
-Anc(o) == ops[o].deps \cup UNION {Anc(d) : d \in ops[o].deps}     \* strict predecessors
+Anc(o) == anc[o]                                                   \* strict predecessors
+Closure(deps) == deps \cup UNION {anc[d] : d \in deps}            \* an operation's causal history
 Before(x, y) == x \in Anc(y)                                       \* graph.rs has_path
 Conc(x, y) == x # y /\ ~Before(x, y) /\ ~Before(y, x)              \* graph.rs is_concurrent
 DownClosed(S) == \A o \in S : ops[o].deps \subseteq S
@@ -131,8 +133,18 @@ MutualOf(B) == {o \in B : RemovedBy(o) # NoActor /\ o \in CycleOps(B)}
 
 ---------------------------------------------------------------------------
 (* mod.rs:690-760 apply_action for one group, on an operation record        *)
+(*                                                                         *)
+(* A create replaces whatever state the group has (`members_y = default`,  *)
+(* then `state::create`), and validation never refuses it: ANYBODY can     *)
+(* publish a second create for an existing group and take it over.  That   *)
+(* is the code (Defect_RecreateAccepted = TRUE, a known finding); with the *)
+(* constant off a create is valid only as the root of the graph.           *)
+CONSTANT Defect_RecreateAccepted
+
 ApplyRec(s, op) ==
-    CASE op.kind = "create" -> Ok(Create(op.init))      \* replaces whatever was there
+    CASE op.kind = "create" -> IF op.deps = {} \/ Defect_RecreateAccepted
+                               THEN Ok(Create(op.init))      \* replaces whatever was there
+                               ELSE Err(s)
       [] op.kind = "add" -> Add(s, op.author, op.member, op.acc)
       [] op.kind = "remove" -> Remove(s, op.author, op.member)
       [] op.kind = "promote" -> Promote(s, op.author, op.member, op.acc)
@@ -183,18 +195,32 @@ Views == {D \in SUBSET OkIds : D # {} /\ DownClosed(D)}
 
 Init ==
     /\ ops = <<CreateOp(Creator, Initial)>>
+    /\ anc = <<{}>>
     /\ delivered = [r \in Replica |-> {}]
     /\ rejected = [r \in Replica |-> {}]
     /\ st = [r \in Replica |-> [x \in {} |-> EmptyState]]
+
+(* An operation for a group that does not exist in the state at its        *)
+(* dependencies (mod.rs:705-722 apply_action): nobody can act in it, only  *)
+(* a create is possible.  (Until the fix commit the code panicked there.)  *)
+VerdictForeignGroup(kind) == kind = "create"
 
 \* the state validation checks an operation published from view D against (mod.rs:598-650)
 StateOfView(D) == CurrentOf(Resolve(D), D)
 \* ... and its verdict, given that state
 VerdictIn(cur, author, kind, member, acc) ==
-    ApplyRec(cur, Op(author, {}, kind, member, acc, TRUE)).ok
+    ApplyRec(cur, Op(author, {1}, kind, member, acc, TRUE)).ok
+
+\* a second create for the group, published from view D by `author` with itself as manager
+Recreate(D, author) ==
+    /\ ops' = Append(ops, [CreateOp(author, [m \in {author} |-> Acc(NoC, Manage)])
+                             EXCEPT !.deps = Heads(D), !.ok = Defect_RecreateAccepted])
+    /\ anc' = Append(anc, D)
+    /\ UNCHANGED <<delivered, rejected, st>>
 
 Publish(D, cur, author, kind, member, acc) ==
     /\ ops' = Append(ops, Op(author, Heads(D), kind, member, acc, VerdictIn(cur, author, kind, member, acc)))
+    /\ anc' = Append(anc, D)
     /\ UNCHANGED <<delivered, rejected, st>>
 
 (* GroupCrdt::process (mod.rs:480-541) at replica r for operation o whose  *)
@@ -204,7 +230,7 @@ Process(r, o) ==
         rebuild == Heads(G) # ops[o].deps                        \* resolver.rs:64-67
         \* validate (mod.rs:598-634): the state the action is checked against
         valState == IF rebuild
-                    THEN LET P == UNION {Anc(d) \cup {d} : d \in ops[o].deps}   \* pruned graph
+                    THEN LET P == Closure(ops[o].deps)                          \* pruned graph
                          IN CurrentOf(Resolve(P), P)
                     ELSE CurrentOf(st[r], G)
         ok == ApplyAction(valState, o).ok
@@ -224,7 +250,7 @@ Deliver(r, o) ==
     /\ o \in Ids /\ o \notin delivered[r] /\ o \notin rejected[r]
     /\ ops[o].deps \subseteq delivered[r]
     /\ Process(r, o)
-    /\ UNCHANGED ops
+    /\ UNCHANGED <<ops, anc>>
 
 ---------------------------------------------------------------------------
 (* C31                                                                     *)
@@ -246,7 +272,7 @@ VerdictsAgree ==
 (* C33                                                                     *)
 \* the state at the declared dependencies of o
 StateAtDeps(o) ==
-    LET P == UNION {Anc(d) \cup {d} : d \in ops[o].deps} IN CurrentOf(Resolve(P), P)
+    LET P == Closure(ops[o].deps) IN CurrentOf(Resolve(P), P)
 
 ActiveIn(s, a) == a \in DOMAIN s /\ IsMember(s[a])
 
